@@ -233,6 +233,11 @@ impl<Service: service::Service, Resource: ServiceResource> Sender<Service, Resou
 
         let mut number_of_recipients = 0;
         if let Some(connection) = self.get(connection_id) {
+            // the connection identifies a chunk by its index in the segment, therefore the chunk
+            // size of the segment is required and not the size of the used memory, which is
+            // smaller when the chunk was grown
+            let sample_size =
+                self.segment_states[chunk.offset().segment_id().value() as usize].payload_size();
             let delivery_call_result = if let Some(handler) = self.backpressure_handler.as_ref() {
                 let backpressure_action_for_strategy = match self.backpressure_strategy {
                     BackpressureStrategy::RetryUntilDelivered => {
@@ -246,7 +251,7 @@ impl<Service: service::Service, Resource: ServiceResource> Sender<Service, Resou
                 <Service::Connection as ZeroCopyConnection>::Sender::blocking_send(
                     &connection.sender,
                     chunk.offset(),
-                    chunk.size(),
+                    sample_size,
                     channel_id,
                     |retries, elapsed_time| {
                         handler
@@ -271,7 +276,7 @@ impl<Service: service::Service, Resource: ServiceResource> Sender<Service, Resou
                         <Service::Connection as ZeroCopyConnection>::Sender::try_send(
                             &connection.sender,
                             chunk.offset(),
-                            chunk.size(),
+                            sample_size,
                             channel_id,
                         )
                     }
@@ -279,7 +284,7 @@ impl<Service: service::Service, Resource: ServiceResource> Sender<Service, Resou
                         <Service::Connection as ZeroCopyConnection>::Sender::blocking_send(
                             &connection.sender,
                             chunk.offset(),
-                            chunk.size(),
+                            sample_size,
                             channel_id,
                             |_, _| BackpressureToReceiverAction::FollowBackpressureyStrategy,
                             BackpressureToReceiverAction::Retry,
